@@ -48,6 +48,10 @@ def cells(tier, seed):
                 out.append({'id': f"prog/{','.join(prog)}/k{k}/u{gi}", 'fn': 'h_flows', 'round': 'lite', 'max_paths': 400,
                             'cost': 2 ** len(prog), 'gens': 200,
                             'params': {'prog': list(prog), 'split': k, 'units': group}})
+    # dilution of a stock with a solvent it does not contain
+    for prog in (['fromAd'], ['fromAd', 'A>B'], ['A>B', 'fromAd']):
+        out.append({'id': f"prog/{','.join(prog)}/k1/u0", 'fn': 'h_flows', 'round': 'lite', 'max_paths': 400,
+                    'cost': 2 ** len(prog), 'gens': 200, 'params': {'prog': prog, 'split': 1, 'units': units[:2]}})
     return out
 
 
